@@ -298,6 +298,7 @@ def run(ctx):
                 'and other attributes; after every step: exception class, policy.type, and which object each attribute '
                 'holds (by identity) compared with the model; direct oracle: type == type implied by the current '
                 'elements and a rejected assignment changes nothing; non-trivial = constructed and >=1 assignment' % maxlen)
+    out.rule += '; plus augmented assignments and re-assignments of the same list object (accepted iff the elements now are coherent, then the type is the implied one)'
     return out
 
 
